@@ -356,19 +356,33 @@ class ObjectTemplate(base.HyperValue, utils.Formattable):
               f'TemplateOnlyKeys={template_keys - value_keys}, '
               f'InputOnlyKeys={value_keys - template_keys})')
         for key in template_value.sym_keys():
-          utils.merge_tree(
+          _encode(
+              utils.KeyPath(key, path),
               template_value.sym_getattr(key),
               input_value.sym_getattr(key),
-              _encode,
-              root_path=utils.KeyPath(key, path),
           )
-      elif isinstance(template_value, symbolic.Dict):
-        # Do nothing since merge will iterate all elements in dict and list.
+      elif isinstance(template_value, dict):
         if not isinstance(input_value, dict):
           raise ValueError(
               f'Unmatched dict between template value and input '
               f'value. (Path=\'{path}\', Template={template_value!r}, '
               f'Input={input_value!r})')
+        # NOTE: the items are matched here instead of by `utils.merge_tree`,
+        # which treats a dict input as a sparse patch of a template list.
+        for key in template_value.keys():
+          if key not in input_value:
+            _encode(
+                utils.KeyPath(key, path),
+                template_value[key],
+                pg_typing.MISSING_VALUE,
+            )
+        for key, input_item in input_value.items():
+          _encode(
+              utils.KeyPath(key, path),
+              (template_value[key] if key in template_value
+               else pg_typing.MISSING_VALUE),
+              input_item,
+          )
       elif isinstance(template_value, symbolic.List):
         if (not isinstance(input_value, list)
             or len(input_value) != len(template_value)):
@@ -377,12 +391,7 @@ class ObjectTemplate(base.HyperValue, utils.Formattable):
               f'value. (Path=\'{path}\', Template={template_value!r}, '
               f'Input={input_value!r})')
         for i, template_item in enumerate(template_value):
-          utils.merge_tree(
-              template_item,
-              input_value[i],
-              _encode,
-              root_path=utils.KeyPath(i, path),
-          )
+          _encode(utils.KeyPath(i, path), template_item, input_value[i])
       else:
         if template_value != input_value:
           raise ValueError(
@@ -393,7 +402,7 @@ class ObjectTemplate(base.HyperValue, utils.Formattable):
           )
       return template_value
 
-    utils.merge_tree(self._value, value, _encode, root_path=self._root_path)
+    _encode(self._root_path, self._value, value)
     return geno.DNA(None, children)
 
   def try_encode(self, value: Any) -> Tuple[bool, geno.DNA]:
